@@ -5,11 +5,26 @@ Streams
               model (`layout <expr>`); open wires per height from an independent wire follower
   raw         diagram VALUES that bypassed the scanning constructor (`layers=` given): the
               `downgrade()` re-scan at drawing.py:100 refuses them (`layoutraw`)
+  diagramize  random function bodies as data (calls in program order + returned tuple; planar ones
+              from well-typed diagrams, ~12 % with one malformation: non-planar / repeated / unused
+              wires, missing or out-of-range `offset=`, wrong arity or types, boxes outside the
+              signature, fabricated nodes, ...) run through the real `drawing.diagramize` by
+              building the Python function dynamically, against the model (`dz`): all five fields
+              of the result or the exception class, and the planarity judgement of the body
+  nx2d        nx2diagram(diagram2nx(d)) with the `offset` attribute absent / supplied for dom-less
+              boxes / random, against the model (`nx2d`)
+  nxgraph     the graph of diagram2nx(d) with node data, nodes in `graph.nodes` order, edges per
+              source in insertion order, against the model (`nxgraph`)
+  nxg         nx2diagram on mutated graphs (edge / node removed or added) against the model (`nxg`)
+  bubble      (oracle only) diagrams with bubbles whose dom/cod are overridden in every way: node census
+              on open_bubbles(), every port wired, edges down, open wires increasing, both back-ends
 Oracle (the property's own statement, on the real graph and exact coordinates)
   node census, edges = wiring, strictly increasing open wires at every height, vertical wires,
   every edge points down, every box (centre, ports and drawn polygon) strictly between its
-  neighbouring wires; both back-ends render without raising; diagramize round trips on
-  generated planar function bodies; nx2diagram(diagram2nx(d)) == d.
+  neighbouring wires; both back-ends render without raising; every planar function body declared
+  with diagramize (fresh or re-used signature object) yields a well-typed diagram whose wiring -
+  found by walking up the returned diagram - is the one the body describes;
+  nx2diagram(diagram2nx(d)) == d.
 """
 import os
 os.environ["MPLBACKEND"] = "Agg"
@@ -19,7 +34,9 @@ import shutil
 import tempfile
 from fractions import Fraction
 
-from common import Driver, Report, lean_obligations, err_class
+from common import Driver, Report, lean_obligations, err_class, ser_diagram
+import dzlib
+import bubblelib
 from core import Family, Gen, tok_expr, tok_ty, tok_box
 from exprgen import ExprGen
 
@@ -219,7 +236,7 @@ def run(tier, seed, replay=None):
     matplotlib.use("Agg")
     import matplotlib.pyplot as plt
     from discopy import monoidal, cat
-    from discopy.drawing import nx2diagram, diagramize
+    from discopy.drawing import nx2diagram, diagramize, diagram2nx
 
     rep = Report(PROP, tier, seed)
     rep.rule = ("random monoidal (3/4) and rigid (1/4) diagrams grown layer by layer through the "
@@ -227,18 +244,33 @@ def run(tier, seed, replay=None):
                 "scalars/states/effects/swaps/cups/caps, plus op-language expressions (then/tensor/...) "
                 "and ~10%% diagram values that bypass the scan; non-trivial = >= 2 boxes and make_space "
                 "moved at least one earlier node (some input no longer at x = i) or a box was placed at a "
-                "non-half-integer; distinct by token form")
+                "non-half-integer; distinct by token form.  diagramize stream: function bodies derived from "
+                "such diagrams (planar by construction; `offset=` given where needed and sometimes "
+                "redundantly, right or wrong), 1 in 8 with one malformation (half of them misuse wires: "
+                "swapped / non-adjacent / repeated / consumed arguments, dropped or permuted return, "
+                "missing or out-of-range offset; else arity, types, signature, fabricated nodes, "
+                "id_factory); non-trivial = planar, >= 2 calls, some call away from position 0")
     rep.partial = [
         "back-ends (MatBackend, TikzBackend, draw, draw_box): rendered without raising on the generated "
-        "diagrams (oracle only; matplotlib/networkx are outside the model)",
-        "diagramize / nx2diagram: round trips on generated planar bodies (oracle only, not modelled)",
-        "bubbles (bubble_opening/closing branches of add_box) are not modelled",
+        "diagrams (oracle only; matplotlib is outside the model)",
+        "bubbles (Diagram.open_bubbles, bubble_opening/closing branches of add_box) are not modelled: "
+        "oracle only, on generated diagrams with bubbles whose dom/cod are overridden in every way "
+        "(node census, every port wired, edges down, open wires increasing, both back-ends)",
+        "diagramize: function bodies are modelled by the data their run produces (calls + returned "
+        "tuple); non-Node arguments, bodies that catch exceptions, the same box object listed twice "
+        "in `boxes` are outside the model",
     ]
     rep.assumptions = [
         "coordinates: the Python floats are compared EXACTLY (fractions.Fraction) with the model's "
         "rationals; depth is capped so that 53-bit floats represent every dyadic coordinate",
-        "nx2diagram(diagram2nx(d)) is checked after giving dom-less box nodes the `offset` attribute "
-        "that nx2diagram's docstring requires (diagram2nx does not set it)",
+        "nx2diagram(diagram2nx(d)) == d is demanded after giving dom-less box nodes the `offset` attribute "
+        "that nx2diagram's docstring requires (diagram2nx does not set it; theorem "
+        "nx2diagram_diagram2nx has exactly this hypothesis); the raw composite is compared with the "
+        "model only",
+        "diagramize oracle: applies to bodies the harness's own planarity check accepts (every position "
+        "searched; cross-checked with the model's decidable predicate on every case) with boxes or an "
+        "id_factory given; Swap/Cup/Cap boxes that diagram2nx downgraded to plain boxes are serialised "
+        "up to Python's == with the originals",
     ]
     thorough = tier == "thorough"
     rep.lean = lean_obligations(PROP, thorough=thorough)
@@ -289,6 +321,7 @@ def run(tier, seed, replay=None):
     finally:
         drv.close()
 
+    nx_jobs = []        # (stream, case, driver line, real answer)
     tmpdir = tempfile.mkdtemp(prefix="c20_render_")
     assert not tmpdir.startswith("/repo") and not tmpdir.startswith(os.path.dirname(
         os.path.dirname(os.path.abspath(__file__))))
@@ -356,11 +389,18 @@ def run(tier, seed, replay=None):
             for sig, text in oracle(d, keys, pos, edges):
                 rep.fail(sig, dict(case, diagram=repr(d)[:1500]), text)
             # ---- nx2diagram inverse
+            if kind != "raw" and idx % 3 == 0:
+                nx_jobs.append(("nxgraph", case, "nxgraph " + tok_expr(e),
+                                "ok " + dzlib.graph_tokens(graph, attr="data", pool=d.boxes)))
             try:
                 raw = nx2diagram(graph, F.m.Ty, F.m.Id)
                 raw_ok = raw == d
-            except Exception:
+                raw_ser = "ok " + dzlib.ser_diagram_like(raw, d.boxes)
+            except Exception as exc:
                 raw_ok = False
+                raw_ser = "err " + err_class(exc)
+            if kind != "raw":
+                nx_jobs.append(("nx2d", case, "nx2d %s %d" % (tok_expr(e), 0), raw_ser))
             rep.count("nx2diagram_raw:" + ("eq" if raw_ok else "needs_offset_attr"))
             needs = any(len(b.dom) == 0 and o != 0 for b, o in zip(d.boxes, d.offsets))
             if not raw_ok and not needs:
@@ -370,11 +410,39 @@ def run(tier, seed, replay=None):
                     node.offset = d.offsets[node.depth]
             try:
                 back = nx2diagram(graph, F.m.Ty, F.m.Id)
+                back_ser = "ok " + dzlib.ser_diagram_like(back, d.boxes)
                 if back != d:
                     rep.fail("nx2diagram_not_inverse", case, "got %s" % str(back)[:300])
             except Exception as exc:
+                back_ser = "err " + err_class(exc)
                 rep.fail("nx2diagram_not_inverse", case, repr(exc))
             rep.count("nx2diagram_checked")
+            if kind != "raw":
+                sup = [o if not len(b.dom) else "A" for b, o in zip(d.boxes, d.offsets)]
+                nx_jobs.append(("nx2d", case, "nx2d %s %s" % (
+                    tok_expr(e), " ".join([str(len(sup))] + [dzlib.tok_attr(a) for a in sup])),
+                    back_ser))
+                sub2 = random.Random(seed * 1000003 + idx)
+                if sub2.random() < 0.2:
+                    # random attributes (None, out of range, on boxes with inputs too)
+                    w = max(widths(d))
+                    att = [sub2.choice(["A", "N", sub2.randint(-w - 2, w + 2), o])
+                           for o in d.offsets]
+                    g2, _ = diagram2nx(d)
+                    dzlib.set_attrs(g2, att)
+                    nx_jobs.append(("nx2d", case, "nx2d %s %s" % (
+                        tok_expr(e), " ".join([str(len(att))] + [dzlib.tok_attr(a) for a in att])),
+                        dzlib.real_nx2diagram(F, g2, d.boxes)[0]))
+                    rep.count("nx2d:random_attrs")
+                if sub2.random() < 0.2:
+                    g3, _ = diagram2nx(d)
+                    dzlib.set_attrs(g3, sup)
+                    mk_ = sub2.choice(dzlib.GRAPH_MUTATIONS)
+                    if dzlib.mutate_graph(sub2, g3, mk_):
+                        toks = dzlib.graph_tokens(g3, attr="live", pool=d.boxes)
+                        nx_jobs.append(("nxg", dict(case, mutation=mk_), "nxg " + toks,
+                                        dzlib.real_nx2diagram(F, g3, d.boxes)[0]))
+                        rep.count("nxg:" + mk_)
             # ---- diagramize on the planar body describing d
             try:
                 got = diagramize(d.dom, d.cod, list(d.boxes), id_factory=F.m.Id)(body_of(d))
@@ -414,8 +482,132 @@ def run(tier, seed, replay=None):
                 rep.fail("matplotlib_backend_raises", dict(case, diagram=repr(d)[:1500]), repr(exc))
             finally:
                 plt.close("all")
+        # ---------------- bubbles (oracle only: the bubble branches of add_box are not modelled)
+        n_bub = 140 if not thorough else 1500
+        n_bub_png = 40 if not thorough else n_bub
+        Fm = fams["monoidal"]
+        for k in range(n_bub):
+            sub = random.Random(rng.getrandbits(64))
+            g = Gen(sub, rigid=False, maxw=5)
+            mode, d = bubblelib.gen(sub, g, Fm)
+            case = dict(stream="bubble", mode=mode, diagram=repr(d)[:1500])
+            rep.count("bubble:" + mode)
+            try:
+                fails, phantoms = bubblelib.failures(d, wiring, node_key, sort_key, exact)
+            except Exception as exc:
+                fails, phantoms = [("bubble_diagram2nx_raises", repr(exc))], []
+            for sig_, text in fails:
+                rep.fail(sig_, case, text)
+            known = any(sig_ == bubblelib.F34 for sig_, _ in fails)
+            rep.case("bubble " + repr(d), False)
+            for backend in ("tikz", "matplotlib"):
+                try:
+                    if backend == "tikz":
+                        path = os.path.join(tmpdir, "b%d.tikz" % k)
+                        d.draw(to_tikz=True, path=path)
+                        text = open(path).read()
+                        if "\\begin{tikzpicture}" not in text:
+                            rep.fail("tikz_output_malformed", case, text[:200])
+                    elif k < n_bub_png:
+                        path = os.path.join(tmpdir, "b%d.png" % k)
+                        d.draw(path=path, show=False)
+                        if os.path.getsize(path) == 0:
+                            rep.fail("matplotlib_output_empty", case, path)
+                    else:
+                        path = None
+                        d.draw(show=False)      # all artists built, no rasterisation
+                    if path:
+                        os.remove(path)
+                    rep.count("bubble_render:" + backend)
+                except Exception as exc:
+                    # the phantom port of finding F34 has no coordinates: both back-ends raise KeyError
+                    f34 = known and isinstance(exc, KeyError)
+                    rep.fail(bubblelib.F34 if f34 else "bubble_%s_backend_raises" % backend,
+                             case, repr(exc)[:300])
+                finally:
+                    plt.close("all")
     finally:
         shutil.rmtree(tmpdir, ignore_errors=True)
     rep.count("render:tikz_files", rendered_tikz)
     rep.count("render:matplotlib_png", rendered_png)
+
+    # ---------------- diagramize: function bodies as data
+    n_dz = 600 if not thorough else 5000
+    dz_cases = []
+    for k in range(n_dz):
+        sub = random.Random(rng.getrandbits(64))
+        fam = "rigid" if k % 4 == 3 else "monoidal"
+        maxw = sub.choice([3, 5, 6, 8])
+        g = Gen(sub, rigid=(fam == "rigid"), maxw=maxw)
+        depth = sub.choice([0, 1, 2, 3, 4, 5, 6, 8] + ([12] if thorough else []))
+        dom = g.ty(0, min(maxw, 5))
+        mode = sub.choice(["core", "uniform", "merge", "wide"]) if fam == "monoidal" else "core"
+        e = g.diagram(dom=dom, depth=depth)[0] if mode == "core" else grow_shape(g, dom, depth, maxw, mode)
+        c = dzlib.make_case(sub, g, e, malformed=(k % 8 == 7))
+        c["group"] = None
+        dz_cases.append((fam, c))
+        if k % 5 == 0:
+            # several functions declared with ONE signature object
+            more, sig = dzlib.variants(sub, g, c)
+            for c2 in [c] + more:
+                c2["sig"], c2["group"] = sig, k
+            dz_cases += [(fam, c2) for c2 in more]
+    for fam, c in dzlib.fixed_cases():
+        c["group"] = None
+        dz_cases.append((fam, c))
+    dz_lines = [dzlib.tok_dz(c["sig"], c["has_id"], c["dom"], c["cod"], c["calls"], c["ret"])
+                for _, c in dz_cases]
+    drv = Driver()
+    try:
+        dz_answers = drv.ask_many(dz_lines)
+        nx_answers = drv.ask_many([j[2] for j in nx_jobs])
+    finally:
+        drv.close()
+    sessions = {}
+    for (fam, c), line, model in zip(dz_cases, dz_lines, dz_answers):
+        F = fams[fam]
+        case = dict(family=fam, line=line[:2500], mutation=c["mutation"],
+                    shared_signature=c["group"] is not None)
+        offs = dzlib.py_planar(c)
+        if c["group"] is None:
+            ses = dzlib.Session(F, c["sig"], c["has_id"], c["dom"], c["cod"])
+        else:
+            if c["group"] not in sessions:
+                sessions[c["group"]] = dzlib.Session(F, c["sig"], c["has_id"], c["dom"], c["cod"])
+                rep.count("dz:shared_signature_objects")
+            else:
+                rep.count("dz:declarations_reusing_a_signature")
+            ses = sessions[c["group"]]
+        real_res, d, log = ses.declare(c["calls"], c["ret"], c["ret_style"])
+        real = dzlib.tok_planar(offs) + " " + real_res
+        if real != model:
+            rep.disagree("diagramize", case, real[:3000], model[:3000])
+        rep.count("dz:" + ("planar" if offs is not None else "not_planar"))
+        rep.count("dz_mutation:%s" % (c["mutation"] if not str(c["mutation"]).startswith("fixed:")
+                                      else "fixed"))
+        rep.count("dz_result:" + (real_res[:2] if d is not None else real_res))
+        # apply returns the fresh wires the model assumes: Node("cod", obj, i, depth = call number)
+        for k, outs in enumerate(log[1:]):
+            if outs != dzlib.outs_of(c["calls"][k][0], k):
+                rep.disagree("diagramize", case, "call %d returned %r" % (k, outs),
+                             "%r" % (dzlib.outs_of(c["calls"][k][0], k),))
+        if log and log[0] != dzlib.inputs_of(c["dom"]):
+            rep.disagree("diagramize", case, "parameters %r" % (log[0],), "inputs of dom")
+        n = len(c["calls"])
+        rep.case("dz " + line, offs is not None and n >= 2 and any(o > 0 for o in offs))
+        # ---- the property's last clause, on the real result
+        if offs is not None and (c["sig"] or c["has_id"]):
+            if d is None:
+                rep.fail("diagramize_raises", case, real_res)
+            else:
+                for sig_, text in dzlib.wiring_failures(F, c, d):
+                    rep.fail(sig_, case, text)
+            rep.count("dz_oracle_checked")
+        if offs is not None:
+            rep.sample(dict(stream="diagramize", family=fam, offsets=offs, answer=real[:300]), cap=6)
+    for (stream, case, line, real), model in zip(nx_jobs, nx_answers):
+        rep.count("stream:" + stream)
+        rep.case(stream + " " + line, False)
+        if real != model:
+            rep.disagree(stream, dict(case, line=line[:2500]), real[:3000], model[:3000])
     return rep.finish()
